@@ -47,8 +47,9 @@ def evaluate(term, assign, window=range(-1, 9), bound=None):
             n = t.num_vars()
             names = [t.var_name(i) for i in range(n)]
             sorts = [t.var_sort(i) for i in range(n)]
-            if not all(s == z3.IntSort() for s in sorts) or n > 2:
-                raise CannotEvaluate("quantifier over non-integers")
+            universe = assign.get("__universe__", {})      # finite universes for uninterpreted sorts (conformance tests on concrete data)
+            if not all(s == z3.IntSort() or s.name() in universe for s in sorts) or n > 4:
+                raise CannotEvaluate("quantifier over a sort without a finite universe")
             results = []
 
             def rec(i, vals):
@@ -56,7 +57,7 @@ def evaluate(term, assign, window=range(-1, 9), bound=None):
                     # de Bruijn: var 0 is the LAST bound variable
                     results.append(ev(t.body(), list(reversed(vals)) + env))
                     return
-                for v in window:
+                for v in (window if sorts[i] == z3.IntSort() else universe[sorts[i].name()]):
                     rec(i + 1, vals + [v])
             rec(0, [])
             return all(results) if t.is_forall() else any(results)
